@@ -115,6 +115,9 @@ func (s *Space) At(i int) *Node {
 // RandomTree draws a tree of at most the given depth over the leaves.
 func RandomTree(r *rand.Rand, leaves []*Node, depth int) *Node {
 	if depth <= 0 || r.Intn(5) == 0 {
+		if r.Intn(10) == 0 {
+			return RandomGroup(r, 1+r.Intn(3))
+		}
 		return leaves[r.Intn(len(leaves))]
 	}
 	if r.Intn(3) == 0 {
@@ -239,5 +242,68 @@ func HostileLeaves(r *rand.Rand, dict []string, n int, withFields bool) []*Node 
 			out = append(out, l)
 		}
 	}
+	return out
+}
+
+// RandomGroup builds f:( E ) where E is a seeded tree over bare terms: OR chains (which become
+// value lists when every member is a plain value) mixed with AND, NOT, prefixes and ~ / ^ in any
+// member position.
+func RandomGroup(r *rand.Rand, depth int) *Node {
+	terms := []*Node{T(Word("x")), T(Word("y")), T(Word("z")), T(Int(3)), T(Phrase("p q")), T(Wild("w*")), T(Float("1.5")), T(Word("x"))}
+	var sub func(d int) *Node
+	sub = func(d int) *Node {
+		if d <= 0 || r.Intn(3) == 0 {
+			return terms[r.Intn(len(terms))]
+		}
+		switch r.Intn(10) {
+		case 0, 1, 2, 3, 4:
+			return Or(sub(d-1), sub(d-1))
+		case 5:
+			return And(sub(d-1), sub(d-1))
+		case 6:
+			return RandomUnary(r, terms[r.Intn(len(terms))])
+		case 7:
+			return Not(sub(d - 1))
+		case 8:
+			return FuzzyN(terms[r.Intn(len(terms))], FuzzyAmounts[r.Intn(len(FuzzyAmounts))])
+		}
+		return Boost(terms[r.Intn(len(terms))])
+	}
+	fields := []string{"g", "s", "f"}
+	return Group(fields[r.Intn(len(fields))], sub(depth))
+}
+
+// RelationTrees are trees whose parts are related to each other: two clauses on the same field
+// (every pair of leaf forms, with equal and with different values), a value spelled like a field
+// name of the same query, value lists whose members are all equal, bounds in descending order,
+// the same clause twice.
+func RelationTrees() []*Node {
+	forms := func(f string, v, w Value) []*Node {
+		return []*Node{
+			F(f, v), Cmp(f, ">", v), Cmp(f, ">=", v), Cmp(f, "<", w), Cmp(f, "<=", w),
+			Range(f, v, Open(), true), Range(f, Open(), w, false), Range(f, v, w, true), Range(f, w, v, false), Range(f, v, v, true),
+			List(f, v, w), List(f, v, v), List(f, v, v, v), List(f, v, w, v), List(f, w, v, v),
+		}
+	}
+	out := []*Node{}
+	type vw struct{ v, w Value }
+	for _, p := range []vw{{Int(1), Int(5)}, {Float("1.5"), Int(7)}, {Word("b"), Word("d")}, {Phrase("x y"), Phrase("x y")}, {Int(1), Phrase("1")}, {Float("2.5"), Phrase("2.5")}} {
+		fs := forms("a", p.v, p.w)
+		for _, x := range fs {
+			for _, y := range fs {
+				out = append(out, And(x.Clone(), y.Clone()), Or(x.Clone(), y.Clone()))
+			}
+			out = append(out, x.Clone(), Not(x.Clone()), And(F("x", Word("y")), Not(BoostN(And(x.Clone(), fs[4].Clone()), "2"))))
+		}
+	}
+	a, b := Word("a"), Word("b")
+	out = append(out,
+		F("a", a), List("a", a, b), List("a", b, a), And(F("a", b), F("b", Int(1))), Or(F("a", b), F("b", a)), Range("a", a, b, true), Cmp("a", ">", a), FV(Phrase("a b"), Phrase("a b")),
+		And(F("a", b), F("a", b)), Or(And(F("a", b), F("c", b)), And(F("a", b), F("c", b))), Jux(F("a", b), F("a", b)), And(T(a), T(a)), Or(T(Phrase("p q")), T(Phrase("p q"))),
+		Range("a", Int(5), Int(1), true), Range("a", Float("2.5"), Int(-3), false), Range("a", Int(10), Int(2), true), Range("a", Word("z"), Word("b"), true), Not(BoostN(Range("a", Int(10), Int(2), true), "2")),
+		Or(List("t", Word("red"), Word("green")), List("t", Word("blue"), Word("black"))), And(F("x", Word("y")), Or(List("i", Int(1), Int(2)), List("i", Int(3), Int(4), Int(5)))),
+		And(Group("a", And(T(b), T(Word("c")))), Group("a", Not(T(b)))), Group("t", Or(Group("a", And(T(b), T(Word("c")))), T(Word("z")))), Group("t", Group("a", Not(T(b)))), Group("t", Or(T(Word("z")), Group("a", F("a", b)))),
+		Group("a", Or(Or(Fuzzy(T(b)), T(Word("c"))), T(Word("d")))), Group("a", Or(Or(T(b), BoostN(T(Word("c")), "2")), T(Word("d")))), Group("a", Or(Or(Or(T(b), Boost(T(Word("c")))), T(Word("d"))), T(Word("e")))), Not(Group("a", Or(Or(T(b), FuzzyN(T(Word("c")), 2)), T(Word("d"))))),
+	)
 	return out
 }
